@@ -10,8 +10,11 @@ def nontrivial(req, obs):
     f = req.split("\t")
     if f[0] == "C03.conv":
         return True
-    if f[0] == "C03.type":
+    if f[0] in ("C03.type", "C03.typex"):
         return obs.count(" ") >= 1            # at least two typed nodes
+    if f[0] == "C03.progx":
+        return len(f) >= 7 and any(k in f[5] for k in ("(un ", "(bin ", "(tern ", "(call ", "(icall ", "(mem ", "(idx ", "(ctor ",
+                                                       "(ret ", "(decl ", "(if ", "(for ", "(while "))
     # a statement with at least one operator / call / conversion
     return len(f) >= 5 and any(k in f[4] for k in ("(un ", "(bin ", "(tern ", "(call ", "(ret ", "(init "))
 
@@ -62,6 +65,25 @@ def finding_key(req, obs, detail):
               (pa[0] == "s" and pb[0] == "v" and pb[2] == "1" and pa[1] == pb[1])
         if (one or la == lb) and "c" not in ma:
             return "rvalue passed to out/inout parameter: T <-> T1 or modifier-only conversion of an lvalue argument"
+    m = re.match(r"FAIL:(assignment|increment|out/inout argument) writes to a const object per the declarations: (\S+)$", d)
+    if m:
+        path = m.group(2)
+        # the last const mark of the access path is followed by a struct member projection: the checker types a member of a
+        # const struct with the member's declared type alone (`const` of the object is lost)
+        if re.search(r":c[^:]*>mem", path):
+            return "write through a struct member of a const object (StructMember drops the object's const)"
+        # a whole array whose elements are const: the array type itself carries no modifier
+        if re.fullmatch(r"(var|global)\[a\]:c(>assigned)*", path):
+            return "assignment to a whole array of const elements (the array type carries no const)"
+        return "write to const per the declarations: %s" % path
+    m = re.match(r"FAIL:(assignment|increment|out/inout argument) writes to a non-lvalue per the declarations: (\S+)$", d)
+    if m:
+        path = m.group(2)
+        # an element of a value that is not an lvalue (function result, a + b, constructor, cast): ArraySubscript is typed
+        # as an lvalue whatever its operand is
+        if re.match(r"(call|op|ctor|cast|tern|lit)(>mem|>swz|>mswz)*>idx\[[avm]\]", path):
+            return "write through a subscript of an rvalue (ArraySubscript is always typed as an lvalue)"
+        return "write to a non-lvalue per the declarations: %s" % path
     m = re.match(r"FAIL:increment of a non-numeric operand: (\S+)$", d)
     if m and m.group(1).split("/")[1].split(".")[0] in ("o", "e"):
         return "increment of a non-numeric operand: struct / enum / object"
@@ -76,6 +98,18 @@ def finding_key(req, obs, detail):
 def shrink(req):
     """replace the statement's expression by one of its sub-expressions (as an expression statement)"""
     f = req.split("\t")
+    if f[0] == "C03.progx" and len(f) == 7:
+        s = f[5]
+        starts = []
+        for i, c in enumerate(s):
+            if c == "(":
+                starts.append(i)
+            elif c == ")":
+                j = starts.pop()
+                sub = s[j:i + 1]
+                if len(starts) >= 2 and sub.split(" ")[0] in ("(un", "(bin", "(tern", "(call", "(icall", "(cast", "(mem", "(idx", "(ctor"):
+                    yield "\t".join(f[:5] + ["(block (expr %s))" % sub, "any"])
+        return
     if f[0] != "C03.prog" or len(f) != 6:
         return
     s = f[4]
@@ -129,7 +163,7 @@ def search(ctx):
 
 SPEC = {
     "id": "C03",
-    "gens": ["RankTable", "TypingTables"],
+    "gens": ["RankTable", "TypingTables", "IntrinsicSigs", "ElabTables"],
     "lean_modules": ["RsslVerif.Thm.C03"],
     "theorems": [T + n for n in [
         "find_sound", "find_rejects_rvalue_to_lvalue", "find_keeps_const",
